@@ -18,6 +18,7 @@ func init() {
 			"R2 in both ACK/NACK classifiers every non-false return is outside the error_detail branch and lies under {no previous record, empty nonce, nonce matches}: NACK and stale nonce stay silent",
 			"R3 every reader of WatchedResource.AlwaysRespond resets it to false on every path (no response loop)",
 			"R4a every update callback handed to UpdateWatchedResource either nil-checks its parameter before dereferencing it or runs only after a non-nil GetWatchedResource for the same type (no crash on a request for a never-watched type)",
+			"R5 deltaWatchedResources' change flag is not derived from set cardinality alone (a same-size swap of names is a change)",
 			"R4b on the request-handling layer no (pointer, error) call has its error discarded and its pointer dereferenced without a nil test",
 		},
 		NotDecided: "request sequences (NACK then subscribe, ACK racing a push), liveness, equality of the recorded subscription with the client's; crash-freedom of generators on arbitrary config",
@@ -25,6 +26,7 @@ func init() {
 			{"C04-R1", "nonce recorded only after a successful send", c04r1},
 			{"C04-R2", "silent on NACK and stale nonce", c04r2},
 			{"C04-R3", "AlwaysRespond reset by every reader", c04r3},
+			{"C04-R5", "subscription-change detection is membership-based", c04r5},
 			{"C04-R4a", "UpdateWatchedResource callbacks tolerate a nil record", c04r4a},
 			{"C04-R4b", "discarded error then dereference on the request layer", c04r4b},
 		},
@@ -288,7 +290,8 @@ func c04r3(c *Ctx) {
 			c.Check("AlwaysRespond reader:"+shortFn(fn), u.Pos(), bad == nil, "AlwaysRespond is read but not reset to false on every path: the forced response repeats on every ACK (request/response loop)")
 		})
 	}
-	c.Floor(2)
+	alwaysRespondForces(c)
+	c.Floor(6)
 }
 
 // nonNilAt: is value v known non-nil in block b (structurally)?
@@ -547,4 +550,137 @@ func c04r4b(c *Ctx) {
 	c.Stat("discarded_error_sites", sites)
 	// the rule's expected count of *violations* is zero; the instance count is the number of discarded-error pointer sites
 	c.Check("scope:functions analysed", token.NoPos, n > 300, "request-layer packages resolved to too few functions")
+}
+
+// c04r5: the `changed` result of deltaWatchedResources decides whether a delta request is treated as a subscription
+// change (answered) or as an ACK (silent). Cardinality is not membership: a request that subscribes N and unsubscribes N
+// names keeps len() equal. The value must not be computed from len() results alone.
+func c04r5(c *Ctx) {
+	p := c.P
+	fn := p.Func(pkgXds, "", "deltaWatchedResources")
+	n := 0
+	eachInstr(fn, func(ins ssa.Instruction) {
+		r, ok := ins.(*ssa.Return)
+		if !ok || len(r.Results) < 3 {
+			return
+		}
+		n++
+		lenLeaf, memberLeaf := false, false
+		seen := map[ssa.Value]bool{}
+		var walk func(v ssa.Value, d int)
+		walk = func(v ssa.Value, d int) {
+			if v == nil || seen[v] || d > 12 {
+				return
+			}
+			seen[v] = true
+			switch x := v.(type) {
+			case *ssa.Phi:
+				for _, e := range x.Edges {
+					walk(e, d+1)
+				}
+			case *ssa.BinOp:
+				walk(x.X, d+1)
+				walk(x.Y, d+1)
+			case *ssa.UnOp:
+				walk(x.X, d+1)
+			case *ssa.Extract:
+				walk(x.Tuple, d+1)
+			case *ssa.Call:
+				if bi, ok := x.Call.Value.(*ssa.Builtin); ok && bi.Name() == "len" {
+					lenLeaf = true
+					return
+				}
+				memberLeaf = true
+			}
+		}
+		walk(retVal(r, 2), 0)
+		c.Check("deltaWatchedResources:changed is not cardinality-only", r.Pos(), !(lenLeaf && !memberLeaf),
+			"the subscription-changed flag is computed from len() of the name set only: a request that swaps names (subscribe N, unsubscribe N) is classified as a plain ACK and never answered")
+	})
+	c.Check("deltaWatchedResources:returns found", fn.Pos(), n >= 1, "no 3-result return found")
+}
+
+// alwaysRespondForces (shared by C04-R3 and C05-R6).
+func alwaysRespondForces(c *Ctx) {
+	p := c.P
+	ar := p.Field(pkgXdsLib, "WatchedResource", "AlwaysRespond")
+	// R3b: once AlwaysRespond was read as true (copied into a local by the update callback), the classifier must answer
+	// positively and un-narrowed: every negative or narrowed return after the update lies under the `local == false` edge.
+	for _, fn := range classifierFuncs(p) {
+		var cell *ssa.Alloc
+		var mkc *ssa.MakeClosure
+		eachInstr(fn, func(ins ssa.Instruction) {
+			mk, ok := ins.(*ssa.MakeClosure)
+			if !ok {
+				return
+			}
+			lit, _ := mk.Fn.(*ssa.Function)
+			if lit == nil {
+				return
+			}
+			eachInstr(lit, func(i2 ssa.Instruction) {
+				st, ok := i2.(*ssa.Store)
+				if !ok {
+					return
+				}
+				fv, ok := st.Addr.(*ssa.FreeVar)
+				if !ok {
+					return
+				}
+				if f := fieldOfLoad(st.Val); f != ar {
+					return
+				}
+				for k, x := range lit.FreeVars {
+					if x == fv && k < len(mk.Bindings) {
+						if a, ok := mk.Bindings[k].(*ssa.Alloc); ok {
+							cell, mkc = a, mk
+						}
+					}
+				}
+			})
+		})
+		if cell == nil {
+			c.Check(fn.Name()+":AlwaysRespond copied to a local", fn.Pos(), false, "the classifier no longer reads AlwaysRespond into a local through its update callback")
+			continue
+		}
+		falseEdges := edgesWhere(fn, func(v ssa.Value) bool {
+			u, ok := v.(*ssa.UnOp)
+			return ok && u.Op == token.MUL && u.X == ssa.Value(cell)
+		}, false)
+		c.Check(fn.Name()+":AlwaysRespond local is tested", fn.Pos(), len(falseEdges) >= 1, "the copied AlwaysRespond flag is never tested")
+		// returns reachable after the update
+		seen := map[*ssa.BasicBlock]bool{}
+		st := []*ssa.BasicBlock{mkc.Block()}
+		for len(st) > 0 {
+			b := st[len(st)-1]
+			st = st[:len(st)-1]
+			if seen[b] {
+				continue
+			}
+			seen[b] = true
+			for _, ins := range b.Instrs {
+				r, ok := ins.(*ssa.Return)
+				if !ok {
+					continue
+				}
+				positive := false
+				if bv, isC := constBool(retVal(r, 0)); isC && bv {
+					positive = true
+				}
+				narrowed := false
+				if len(r.Results) > 1 {
+					rv := retVal(r, 1)
+					if globalOf(rv) != "emptyResourceDelta" {
+						narrowed = true
+					}
+				}
+				if positive && !narrowed {
+					continue
+				}
+				ok2 := underEdges(fn, r.Block(), falseEdges)
+				c.Check(fn.Name()+":negative/narrowed answer only when AlwaysRespond was false", r.Pos(), ok2, "after AlwaysRespond was read (and cleared) a negative or narrowed answer is reachable without passing the `alwaysRespond == false` edge: the forced response that lets the client finish warming is lost for good")
+			}
+			st = append(st, b.Succs...)
+		}
+	}
 }
